@@ -300,7 +300,49 @@ func (b *Builder) Or(xs ...*Term) *Term {
 
 func (b *Builder) Implies(a, c *Term) *Term { return b.Or(b.Not(a), c) }
 
+// OrdW is the width reserved for ordinal strings (see package sym): 0 is "", k>0 is the 16-digit hex of k.
+const OrdW = 61
+
+func (b *Builder) ordCoerce(x, y *Term) (*Term, *Term) {
+	xo := x.Sort.K == KBV && x.Sort.W == OrdW
+	yo := y.Sort.K == KBV && y.Sort.W == OrdW
+	if xo == yo {
+		return x, y
+	}
+	conv := func(t *Term) *Term {
+		if t.Sort.K == KStr && t.IsConst() {
+			if t.S == "" {
+				return b.BVC(0, OrdW)
+			}
+			if len(t.S) == 16 {
+				var k uint64
+				ok := true
+				for i := 0; i < 16; i++ {
+					c := t.S[i]
+					switch {
+					case c >= '0' && c <= '9':
+						k = k<<4 | uint64(c-'0')
+					case c >= 'a' && c <= 'f':
+						k = k<<4 | uint64(c-'a'+10)
+					default:
+						ok = false
+					}
+				}
+				if ok && k != 0 && k < 1<<OrdW {
+					return b.BVC(k, OrdW)
+				}
+			}
+		}
+		panic("smt: an ordinal string meets a string that is not an ordinal: " + Print(t))
+	}
+	if xo {
+		return x, conv(y)
+	}
+	return conv(x), y
+}
+
 func (b *Builder) Ite(c, x, y *Term) *Term {
+	x, y = b.ordCoerce(x, y)
 	if c.IsTrue() {
 		return x
 	}
@@ -322,6 +364,7 @@ func (b *Builder) Ite(c, x, y *Term) *Term {
 }
 
 func (b *Builder) Eq(x, y *Term) *Term {
+	x, y = b.ordCoerce(x, y)
 	if x.Sort != y.Sort {
 		panic(fmt.Sprintf("smt: Eq sort mismatch %v vs %v", x.Sort, y.Sort))
 	}
